@@ -82,8 +82,8 @@ func judgeTLS(r *ev.Run, w tlsWitness, accepted bool) {
 		return
 	case accepted && !exp:
 		r.Violation(fmt.Sprintf("tls-accepted-%s-%s-%s", where, o.class(), s.Class),
-			fmt.Sprintf("%s TLS endpoint (%s; allowed_cn=%q allowed_hostname=%q) accepted a client (max TLS %s) whose credential is %q: issuer=%s validity=%s wrong_key=%v cn=%q dns=%v ips=%v",
-				where, o.class(), o.AllowedCN, o.AllowedHostname, w.TLSMax, s.Class, s.Issuer, s.Validity, s.WrongKey, s.CN, s.DNS, s.IPs), w)
+			fmt.Sprintf("%s TLS endpoint (%s; allowed_cn=%q allowed_hostname=%q) accepted a client (max TLS %s) whose credential is %q: leaf issuer=%s validity=%s wrong_key=%v cn=%q dns=%v ips=%v; unrelated extra certificates sent along: %+v",
+				where, o.class(), o.AllowedCN, o.AllowedHostname, w.TLSMax, s.Class, s.Issuer, s.Validity, s.WrongKey, s.CN, s.DNS, s.IPs, s.Extras), w)
 	case !accepted && exp:
 		r.Violation(fmt.Sprintf("tls-refused-right-cert-%s-%s", where, o.class()),
 			fmt.Sprintf("%s TLS endpoint (%s; allowed_cn=%q allowed_hostname=%q) refused the canonical right credential (max TLS %s): cn=%q dns=%v ips=%v",
@@ -91,7 +91,10 @@ func judgeTLS(r *ev.Run, w tlsWitness, accepted bool) {
 	}
 	r.Eval(1)
 	if s.Near {
-		r.Nontrivial(fmt.Sprintf("tls|%s|%s|%s|%s|%s|%v|%v", where, o.class(), s.Class, w.TLSMax, s.CN, s.DNS, s.IPs))
+		r.Nontrivial(fmt.Sprintf("tls|%s|%s|%s|%s|%s|%v|%v|%v", where, o.class(), s.Class, w.TLSMax, s.CN, s.DNS, s.IPs, s.Extras))
+		if len(s.Extras) > 0 {
+			r.Count("multi_certificate_client_messages", 1)
+		}
 		r.Count("near_miss_certificates", 1)
 	}
 }
